@@ -7,6 +7,7 @@ import (
 	"encoding/json"
 	"errors"
 	"fmt"
+	"sort"
 	"strings"
 	"time"
 
@@ -242,6 +243,23 @@ func (x *c05Exec) start(name string) {
 			x.put(c05Filler(x.env.node, 32), 30_000, false, "start")
 			x.put(c05Filler(x.env.node, 33), 30_000, false, "start") // crosses 1 MB: prune
 		}
+	case "rewritten-farthest":
+		// 28 items, the three farthest of which were written twice (an older version of each lies
+		// below the current one in the database): what a pruning pass deletes must stay deleted
+		ids := make([][]byte, 28)
+		for i := range ids {
+			ids[i] = c05Filler(x.env.node, i)
+		}
+		sort.Slice(ids, func(a, b int) bool {
+			return bytes.Compare(distKey(x.env.node, ids[a]), distKey(x.env.node, ids[b])) > 0
+		})
+		for _, id := range ids[:3] {
+			x.put(id, 29_000, false, "start")
+		}
+		quiesce()
+		for _, id := range ids {
+			x.put(id, 30_000, false, "start")
+		}
 	default:
 		panic("start " + name)
 	}
@@ -308,7 +326,7 @@ type c05Unit struct {
 func c05Units(thorough bool) []c05Unit {
 	var us []c05Unit
 	for _, node := range []string{"zero", "ones", "mixed"} {
-		for _, start := range []string{"empty", "filled93", "filled93-pruned", "cap0"} {
+		for _, start := range []string{"empty", "filled93", "filled93-pruned", "cap0", "rewritten-farthest"} {
 			d := 2
 			if thorough {
 				d = 3
